@@ -92,8 +92,8 @@ def parse_one(conf, neighbor, text: str):
 
 
 class Decoder:
-    """refwire decode of one UPDATE; values of large attributes are decoded once per case (same functions as
-    codec.decode_update, which is also run as is on the first messages and compared)"""
+    """refwire decode of one UPDATE; in large messages the value of a large attribute is decoded once per case
+    (same functions as codec.decode_update, which is run as is on small messages and on the first large ones)"""
 
     def __init__(self, asn4: bool, addpath) -> None:
         self.asn4 = asn4
@@ -105,13 +105,15 @@ class Decoder:
         if len(body) <= 1024:
             return codec.decode_update(body, self.asn4, self.addpath)
         if self.direct < 3:
+            # the first large messages of a case go through codec.decode_update as is and through the cached path
             self.direct += 1
             plain = codec.decode_update(body, self.asn4, self.addpath)
-            self.direct, again = 3, self.decode(body)
-            if plain != again:
+            if plain != self._cached(body):
                 raise RuntimeError('harness: cached decode differs from codec.decode_update')
-            self.direct = self.direct  # the first large messages of a case go through both paths
             return plain
+        return self._cached(body)
+
+    def _cached(self, body: bytes) -> dict:
         r = codec.Reader(body)
         withdrawn_raw = r.take(r.u16())
         attr_raw = r.take(r.u16())
@@ -501,4 +503,4 @@ def diagnose(neg, attributes, ann: list, wd: list, include_withdraw: bool, neg_f
 
 
 QUICK_SHARDS = 4
-ENGINES = [Engine('collections', model.cases, check, quick=90, thorough=2500, batch=30, fixed_cases=model.boundary_sweep)]
+ENGINES = [Engine('collections', model.cases, check, quick=250, thorough=4000, batch=50, fixed_cases=model.boundary_sweep)]
